@@ -4,6 +4,7 @@ import (
 	"flag"
 	"fmt"
 	"sort"
+	"strconv"
 	"strings"
 
 	"github.com/EliCDavis/jbtf"
@@ -314,7 +315,7 @@ func (i *Instance) buildNodeGraphInstanceSchema(node nodes.Node, encoder *jbtf.E
 	}
 
 	sort.Slice(nodeInstance.Dependencies, func(i, j int) bool {
-		return strings.ToLower(nodeInstance.Dependencies[i].Name) < strings.ToLower(nodeInstance.Dependencies[j].Name)
+		return dependencyNameLess(nodeInstance.Dependencies[i].Name, nodeInstance.Dependencies[j].Name)
 	})
 
 	if param, ok := node.(CustomGraphSerialization); ok {
@@ -326,6 +327,33 @@ func (i *Instance) buildNodeGraphInstanceSchema(node nodes.Node, encoder *jbtf.E
 	}
 
 	return nodeInstance
+}
+
+// splitArrayDependencyName breaks "Port.12" into ("Port", 12, true). Names
+// without a numeric suffix come back unchanged with isArray false.
+func splitArrayDependencyName(name string) (port string, index int, isArray bool) {
+	dot := strings.LastIndex(name, ".")
+	if dot == -1 {
+		return name, 0, false
+	}
+	index, err := strconv.Atoi(name[dot+1:])
+	if err != nil {
+		return name, 0, false
+	}
+	return name[:dot], index, true
+}
+
+// dependencyNameLess orders dependencies by case-folded port name and entries
+// of the same array port by their numeric index. Array inputs are re-appended
+// in file order when a graph is loaded, so "Values.10" has to come after
+// "Values.2" or the array comes back permuted.
+func dependencyNameLess(a, b string) bool {
+	aPort, aIndex, aIsArray := splitArrayDependencyName(a)
+	bPort, bIndex, bIsArray := splitArrayDependencyName(b)
+	if aIsArray && bIsArray && strings.EqualFold(aPort, bPort) {
+		return aIndex < bIndex
+	}
+	return strings.ToLower(a) < strings.ToLower(b)
 }
 
 // NODES ======================================================================
